@@ -15,7 +15,7 @@ ID = 'C16'
 LEVEL = 'exploration'
 TECHNIQUE = 'differential testing over all scopes of real / generated programs: reference scope analyser written from the language reference, itself cross-checked against CPython symtable in the same run'
 RULE = ('Programs: seeded slice of real files (all scopes of each), synthetic scope-corner templates (nested functions / classes / lambdas / '
-        'comprehensions, comprehension first iterables that are calls / attributes / comprehensions, walrus inside nested comprehensions, '
+        'comprehensions, comprehension first iterables that are calls / attributes / comprehensions, a 180-program grid of every comprehension kind nested in every position of every comprehension kind in every enclosing scope kind, walrus inside nested comprehensions, '
         'global / nonlocal, imports, augmented assignment, except-as, with-as, for targets, match captures, decorators / defaults / '
         'annotations / bases) and Hypothesis-drawn windows. For every scope node S: (R1) a reference analyser over plain ast computes the '
         'node set of the scope and the name sets load / store / del / global / nonlocal / local / free with pfst\'s documented definitions of '
